@@ -11,14 +11,14 @@
    test_consistency and load_input_files: equal lengths, blanks with 0 and -1 exactly at the
    uninitialised positions (the closure table is defined on keys only: propagate_dom), eq 1-based,
    at most the position, idempotent and carrying the same code, wc within range, pointing at a
-   representative whose own wc is the position's eq and whose code is the complement.  For the strand
-   layout this holds of every loaded document (C05_loaded_files_contract).
+   representative whose own wc is the position's eq and whose code is the complement.  In both
+   layouts this holds of every loaded document (C05_loaded_files_contract, C05_struct_loaded_files_contract).
    Decided per case: that contract_ok is the binary's own check (the extracted predicate is evaluated on
    the real files and a sanitised spuriousSSM built from the working tree must accept them), and the
    number of blanks between strands and complexes. *)
 From Coq Require Import List String Ascii Arith.
 From PC Require Import Base.Codes Comp.Syntax Comp.Compile Design.Propagate Design.PropagateProofs Design.Designer Design.DesignerProofs Design.TemplateProofs
-  Design.ContractProofs Design.Loaded SSM.Contract.
+  Design.ContractProofs Design.Loaded Design.LoadedStruct SSM.Contract.
 Import ListNotations.
 
 Definition exact_table (g : cgraph) (m : tbl) : Prop :=
@@ -69,3 +69,9 @@ Theorem C05_table_on_keys : forall eq wc U,
   forall m, propagate eq wc U = OOk m -> forall y, get m y <> None -> In y U.
 Proof. exact propagate_dom. Qed.
 Print Assumptions C05_table_on_keys.
+
+(* structure-oriented layout: the files written for every loaded document satisfy the contract *)
+Theorem C05_struct_loaded_files_contract : forall ls p lay g e w s, load_spec ls pspec0 = OK p -> seed p true = OK (lay, g) ->
+  get_constraints p true = DOk e w s -> contract_ok (map eq_map e) (map wc_map w) (map st_map s) = true.
+Proof. exact sloaded_files_contract. Qed.
+Print Assumptions C05_struct_loaded_files_contract.
